@@ -5,7 +5,7 @@ from dataclasses import dataclass, field
 from mindsdb_sql.exceptions import PlanningException
 from mindsdb_sql.parser import ast
 from mindsdb_sql.parser.ast import (Select, Identifier, BetweenOperation, Join, Star, BinaryOperation, Constant,
-                                    NativeQuery, Parameter)
+                                    NativeQuery, Parameter, NullConstant)
 from mindsdb_sql.planner.steps import (FetchDataframeStep, JoinStep, ApplyPredictorStep, SubSelectStep, QueryStep,
                                        MapReduceStep)
 from mindsdb_sql.planner.utils import (query_traversal, filters_to_bin_op)
@@ -214,6 +214,10 @@ class PlanJoinTablesQuery:
             else:
                 if not isinstance(arg, (Constant, Parameter)):
                     return
+
+        if isinstance(node, BinaryOperation) and node.op == 'is' and isinstance(node.args[1 - col_idx], NullConstant):
+            # rows without a pair get NULLs in an outer join: IS NULL can't be checked before the join
+            return
 
         # checked, find table and store condition
 
